@@ -289,6 +289,26 @@ def plausible_text(event, fam, draw):
         if draw(4) == 0:                              # hug the limits
             milli_speed = [495, 500, 505, 9990, 10000, 10010, 10990, 11000, 11010][draw(9)]
         cs = max(1, min(int(d * 100000 / milli_speed), 100 * 3600 * 30))
+        if draw(6) == 0:
+            # the last hundredths before a full minute, written with more decimals, under every shape of the leading fields
+            # (no minutes, minutes, hours with zero / 59 / other minutes): rounding must carry into the next field, never
+            # print ':60'
+            h_, rem_ = divmod(cs, 360000)
+            m_ = rem_ // 6000
+            if h_ and draw(2):
+                m_ = 0
+            elif m_ and draw(4) == 0:
+                m_ = 59
+            sec = '59.99' + ['5', '6', '9', '95', '99', '51', '949', '999'][draw(8)]
+            if draw(8) == 0:
+                sec = sec.replace('.', ',')
+            if h_:
+                body = '%d:%s:%s' % (h_, ['%d', '%02d'][draw(2)] % m_, sec)
+            elif m_:
+                body = '%d:%s' % (m_, sec)
+            else:
+                body = sec
+            return body.replace(':', ';') if draw(10) == 0 else body
         if draw(5) == 0 and cs < 6000 * 60:
             # thousandths / ten-thousandths: rounding to the printed precision must not carry a mark across a limit
             extra = ['%d' % draw(10), '%02d' % draw(100)][draw(2)]
